@@ -26,9 +26,42 @@ func runC06(c *Ctx) {
 	R.Rule("C06.R4", "the tokenizer runs in its default configuration: the only methods invoked on the value returned by html.NewTokenizer are Next, Token, Err and Raw (AllowCDATA, SetMaxBuf, NextIsNotRawText … change which input bytes are delivered as text, so that the text of the output is no longer the text of the input)")
 	R.Rule("C06.R3", "nothing is written outside the token-type arms (between Tokenizer.Next and the switch, or after the loop)")
 	R.Assume(TrustGo, TrustTokenizer, TrustTokenString, "equality of the text an HTML tokenizer reads from input and output (decode/escape round trip, CR/LF/NUL normalisation, invalid UTF-8) is a property of x/net/html and is NOT decided")
+	R.Rule("C06.R8", "no token the tokenizer can deliver aborts the run: each of the six html.TokenType values that Token() can carry once Next() did not report ErrorToken (Text, StartTag, EndTag, SelfClosingTag, Comment, Doctype) has an arm of its own in the dispatcher of sanitize, so that the `unknown token` return of the default arm — which discards everything written so far in the string entry points and the rest of the text in the streaming one — is never taken for real input")
 	sc := newSC(c, "C06.R1")
 	if sc == nil {
 		return
+	}
+	{
+		S := sc.S
+		defaultReturns := false
+		if S.Default != nil {
+			seen := map[*ssa.BasicBlock]bool{}
+			stack := []*ssa.BasicBlock{S.Default}
+			for len(stack) > 0 {
+				b := stack[len(stack)-1]
+				stack = stack[:len(stack)-1]
+				if seen[b] || b == S.Header {
+					continue
+				}
+				seen[b] = true
+				if _, ok := b.Instrs[len(b.Instrs)-1].(*ssa.Return); ok {
+					defaultReturns = true
+				}
+				stack = append(stack, b.Succs...)
+			}
+		}
+		n := 0
+		for _, name := range []string{"Text", "StartTag", "EndTag", "SelfClosingTag", "Comment", "Doctype"} {
+			a := S.Arms[name]
+			if a != nil && a.Entry != S.Default {
+				n++
+				R.OK("C06.R8", "arm:"+name, "(*Policy).sanitize: arm for html."+name+"Token", sc.pos(a.From.Instrs[len(a.From.Instrs)-1]), "the token type has an arm of its own")
+				continue
+			}
+			R.Check(!defaultReturns, "C06.R8", "arm:"+name, "(*Policy).sanitize: arm for html."+name+"Token", c.P.Pos(S.Fn.Pos()), "no arm, and the default arm goes on with the next token",
+				"a token of this type takes the default arm, which returns: an input containing one loses its text (the whole result for Sanitize/SanitizeBytes/SanitizeReader, the rest of the stream for SanitizeReaderToWriter)")
+		}
+		R.Role("C06.R8", "token types with an arm of their own", n, 5)
 	}
 	A := sc.A
 	U := sc.U()
